@@ -57,6 +57,15 @@ CHECKS = {
         "exhaustive": {"quick": False, "thorough": False},
         "trusted_base": ["reference text grammars in harness/chk-codec/src/c15.rs", "std IP/integer parsers"],
     },
+    "C16": {
+        "engines": [
+            eng("native-release", "chk-codec", NATIVE_REL, params={"all": {"scale": 4}}),
+            eng("native-debugassert", "chk-codec", NATIVE_CHK, params={"all": {"scale": 1}}, tiers=["thorough"]),
+            eng("miri", "chk-codec", MIRI, shards={"quick": 4, "thorough": 8}, floor_scale=0.0, tiers=["thorough"], timeout={"quick": 1500, "thorough": 3600}),
+        ],
+        "exhaustive": {"quick": True, "thorough": True},
+        "trusted_base": ["first-match ACL evaluator, Brzozowski-derivative matcher and grammar recogniser in harness/chk-codec/src/c16.rs"],
+    },
 }
 
 LEVEL = {p: "exploration" for p in CHECKS}
